@@ -48,3 +48,11 @@ package thrift
 //@ roundtrip I64 [C16]: encode (*TCompactProtocol).WriteI64 decode (*TCompactProtocol).ReadI64 unroll 10 longest 9223372036854775807
 //@ roundtrip I32 [C16]: encode (*TCompactProtocol).WriteI32 decode (*TCompactProtocol).ReadI32 unroll 5 longest 2147483647
 //@ roundtrip I16 [C16]: encode (*TCompactProtocol).WriteI16 decode (*TCompactProtocol).ReadI16 unroll 3 longest 32767
+
+// Strings: the length prefix (a varint32) followed by the bytes.  The bytes are
+// opaque to the harness (handed to the transport's WriteString, fetched back with
+// io.ReadFull); what is decided is that the decoder reads the prefix from exactly
+// the prefix bytes, accepts it (no "invalid data length"), asks for exactly that
+// many bytes and leaves nothing unread.  Lengths above MaxInt32 do not fit the
+// wire format: precondition.
+//@ roundtrip String [C16]: encode (*TCompactProtocol).WriteString decode (*TCompactProtocol).ReadString unroll 5 maxlen 2147483647
